@@ -81,9 +81,10 @@ RowChecks(exh, d, rows, case) ==
         ELSE Require(l, "excel-unknown-row", <<case, id>>, IsValue(r) /\ ~r.v.some)
 ExcelRead(e) ==
   LET exp == ParseExh(e.exh)
-  IN /\ Require(l, "exh-header", Sig(e), IsSome(e.res.exh) /\ ObsHeaderOk(e.res.exh.v.v, exp))
-     /\ Require(l, "exd-parse", Sig(e), IsValue(e.res.exd) /\ e.res.exd.v)
-     /\ IF IsValue(e.res.exd) /\ e.res.exd.v THEN RowChecks(exp, e.exd, e.res.rows, e.case) ELSE TRUE
+  IN /\ IF ~IsSome(e.res.exh) THEN Mismatch(l, "exh-header", Sig(e), "a header", e.res.exh)      \* no header, no row reads in the event
+        ELSE /\ Require(l, "exh-header", Sig(e), ObsHeaderOk(e.res.exh.v.v, exp))
+             /\ Require(l, "exd-parse", Sig(e), IsValue(e.res.exd) /\ e.res.exd.v)
+             /\ IF IsValue(e.res.exd) /\ e.res.exd.v THEN RowChecks(exp, e.exd, e.res.rows, e.case) ELSE TRUE
      /\ UNCHANGED inst
 
 \* bytes of the standard file stored under a path of installation h (<<>> with ok = FALSE if absent)
